@@ -151,6 +151,35 @@ def judge_sync(j, ranks, suffix):
                 break
 
 
+def judge_transfers(j, ranks, ref_ranks):
+    """restriction / prolongation dumps of every level pair (names rest_to_L*, prol_*; component suffixes allowed)"""
+    # grid transfer across all level pairs (incl. layer boundaries: muxer join/split, ghost send/recv)
+    names = set()
+    for recs in ref_ranks:
+        for r in recs:
+            if r.get("t") == "vec" and (r["name"].startswith("rest_to_L") or r["name"].startswith("prol_")):
+                names.add(r["name"])
+    for name in sorted(names):
+        vs = vecs_of(ranks, name)
+        if not any(vs):
+            # the distributed hierarchy legitimately has fewer levels than the serial one (no level below the
+            # partitioning level): nothing to compare
+            continue
+        m = j.merged_consistent(vs, name, 1e-11, 1e-12)
+        j.compare_ref(m, vecs_of(ref_ranks, name)[0], name, 1e-10, 1e-12)
+        # (only on meshes without boundary charts: chart adaption moves fine boundary vertices, so the fine space does not
+        #  contain the coarse one there and the clause 'same function on the fine mesh' does not apply at those DOFs)
+        if name.startswith("prol_lin_to_L") and m is not None and j.desc.get("mesh") in NESTED_MESHES:
+            # prolongating a function of the coarse space must give its fine interpolant (computed on the same ranks)
+            exp = j.merged_consistent(vecs_of(ranks, name.replace("prol_lin_to_L", "lin_interp_L")), "lin_interp", 1e-12, 1e-13)
+            if exp is not None:
+                for k, v in m.items():
+                    j.events += 1
+                    if k not in exp or not close(v, exp[k], 1e-11, 1e-12):
+                        j.viol("transfer.prol_lin", "not-the-fine-interpolant", dict(key=[k[0] * 1e-7, k[1] * 1e-7], got=v, expected=exp.get(k), name=name))
+                        break
+
+
 def judge_stokes(j, ranks, ref_ranks, nprocs):
     """blocked velocity + scalar pressure (tuple vector): syncs, dot/norms, saddle-point matvec"""
     sc = scalars_of(ranks)
@@ -169,6 +198,29 @@ def judge_stokes(j, ranks, ref_ranks, nprocs):
             j.viol("dist." + name, "ranks-disagree", dict(values=vals))
         elif not close(vals[0], ref_sc[name], rel, ab):
             j.viol("dist." + name, "differs-from-serial", dict(distributed=vals[0], serial=ref_sc[name], nprocs=nprocs))
+    # three-component tuple vector over a TupleMirror<V,P,P> gate
+    for suf in (".t3.v0", ".t3.v1", ".t3p", ".t3q"):
+        judge_sync(j, ranks, suf)
+        for name in ("u", "w"):
+            m = j.merged_consistent(vecs_of(ranks, name + suf), name + suf, 1e-12, 1e-13)
+            j.compare_ref(m, vecs_of(ref_ranks, name + suf)[0], name + suf, 0, 0)
+    dot3 = 0.0
+    nrm3 = 0.0
+    for suf in (".t3.v0", ".t3.v1", ".t3p", ".t3q"):
+        ru, rw = vecs_of(ref_ranks, "u" + suf)[0], vecs_of(ref_ranks, "w" + suf)[0]
+        dot3 += math.fsum(ru[k] * rw[k] for k in ru)
+        nrm3 += math.fsum(v * v for v in ru.values())
+    for name, exp, rel, ab in (("t3_dot_u_w", dot3, 1e-11, 1e-12), ("t3_norm2_u", math.sqrt(nrm3), 1e-12, 0)):
+        vals = [s_.get(name) for s_ in sc]
+        j.events += 1
+        if any(v is None for v in vals):
+            j.viol("dist." + name, "scalar-missing", dict(values=vals))
+        elif any(v != vals[0] for v in vals):
+            j.viol("dist." + name, "ranks-disagree", dict(values=vals))
+        elif not close(vals[0], exp, rel, ab):
+            j.viol("dist." + name, "differs-from-recomputed", dict(distributed=vals[0], recomputed=exp, nprocs=nprocs))
+    # tuple grid transfers across every level pair (muxer join / split of TupleMirror buffers at layer boundaries)
+    judge_transfers(j, ranks, ref_ranks)
     # recomputed from the undecomposed (serial) vectors
     dot = 0.0
     nrm = 0.0
@@ -225,31 +277,7 @@ def judge_run(j, ranks, ref_ranks, nprocs):
                           ("rhs_filtered", 1e-11, 1e-12), ("pcgj_sol", 1e-6, 1e-7), ("pcgmg_sol", 1e-6, 1e-7)):
         m = j.merged_consistent(vecs_of(ranks, name), name, 1e-9 if "sol" in name else 1e-12, 1e-9 if "sol" in name else 1e-13)
         j.compare_ref(m, vecs_of(ref_ranks, name)[0], name, rel, ab)
-    # grid transfer across all level pairs (incl. layer boundaries: muxer join/split, ghost send/recv)
-    names = set()
-    for recs in ref_ranks:
-        for r in recs:
-            if r.get("t") == "vec" and (r["name"].startswith("rest_to_L") or r["name"].startswith("prol_")):
-                names.add(r["name"])
-    for name in sorted(names):
-        vs = vecs_of(ranks, name)
-        if not any(vs):
-            # the distributed hierarchy legitimately has fewer levels than the serial one (no level below the
-            # partitioning level): nothing to compare
-            continue
-        m = j.merged_consistent(vs, name, 1e-11, 1e-12)
-        j.compare_ref(m, vecs_of(ref_ranks, name)[0], name, 1e-10, 1e-12)
-        # (only on meshes without boundary charts: chart adaption moves fine boundary vertices, so the fine space does not
-        #  contain the coarse one there and the clause 'same function on the fine mesh' does not apply at those DOFs)
-        if name.startswith("prol_lin_to_L") and m is not None and j.desc.get("mesh") in NESTED_MESHES:
-            # prolongating a function of the coarse space must give its fine interpolant (computed on the same ranks)
-            exp = j.merged_consistent(vecs_of(ranks, name.replace("prol_lin_to_L", "lin_interp_L")), "lin_interp", 1e-12, 1e-13)
-            if exp is not None:
-                for k, v in m.items():
-                    j.events += 1
-                    if k not in exp or not close(v, exp[k], 1e-11, 1e-12):
-                        j.viol("transfer.prol_lin", "not-the-fine-interpolant", dict(key=[k[0] * 1e-7, k[1] * 1e-7], got=v, expected=exp.get(k), name=name))
-                        break
+    judge_transfers(j, ranks, ref_ranks)
     # rhs: sum of the pre-sync contributions equals the serial vector
     pre = vecs_of(ranks, "rhs_pre")
     tot = {}
